@@ -355,6 +355,10 @@ impl<'a> Peripheral<'a> {
                 // when it comes back.
                 log::warn!("Peripheral #{} stopped responding!", self.address);
                 self.state = PeripheralState::Offline;
+                // Start over with a fresh frame count bit once the peripheral responds again.
+                // Otherwise a peripheral that missed nothing would treat the first probe as a
+                // retransmission of the last request it has seen.
+                self.fcb.reset();
                 Err((tx, Some(PeripheralEvent::Offline)))
             }
             PeripheralState::Offline => {
